@@ -41,12 +41,12 @@ def havokOffset (file : Bytes) : Outcome Nat :=
         -- `#[br(assert(version == ..))]`: any other version is a read error
         else .none
 
-/-- `Skeleton::from_existing` -/
-def fromExisting (file : Bytes) : Outcome (List Havok.Bone) :=
+/-- `Skeleton::from_existing` over a tag-file reader `rd` -/
+def fromExistingWith (rd : Bytes → Option (List Havok.Obj)) (file : Bytes) : Outcome (List Havok.Bone) :=
   match havokOffset file with
   | .ok off =>
     -- `seek_before(SeekFrom::Start(havok_offset))` + `until_eof`
-    match Havok.read (Rd.seekTo file off) with
+    match rd (Rd.seekTo file off) with
     | none => .none
     | some objs =>
       match Havok.extract objs with
@@ -57,5 +57,11 @@ def fromExisting (file : Bytes) : Outcome (List Havok.Bone) :=
   | .panic => .panic
   | .diverges => .diverges
   | .unmodelled => .unmodelled
+
+/-- `Skeleton::from_existing` (the reader without the struct-element bound, see `Model/Havok.lean`) -/
+def fromExisting (file : Bytes) : Outcome (List Havok.Bone) := fromExistingWith Havok.read file
+
+/-- `Skeleton::from_existing` with the reader's bound on the number of struct-array elements -/
+def fromExistingBounded (file : Bytes) : Outcome (List Havok.Bone) := fromExistingWith Havok.readBounded file
 
 end Physis.Sklb
